@@ -105,6 +105,7 @@ fn oracle(c: &Case, ctx: &mut Ctx) -> CaseResult {
 
 fn main() {
 	install_recording_signer();
+	netsim::rec::tolerate_monitor_roundtrip_tripwire();
 	let mut c = Check::new("C07", "exploration");
 	c.set_case_timeout_secs(240);
 	let thorough = c.tier() == Tier::Thorough;
